@@ -1,5 +1,7 @@
-//! C12: `LimitManager::{new, register}` called directly, and a real server on a loopback
-//! port (`RunConfig::execute`) for the reaction of the accept loop / request loop.
+//! C12: `LimitManager::{new, default, set_*, disable, register}` (also through the `limiter`
+//! field of a `Host`) called directly, and a real server on a loopback port
+//! (`RunConfig::execute`, IPv4-only or dual stack) for the reaction of the accept loop /
+//! request loop, with every way to configure the host limiter and the pre-host limiter.
 use crate::xval::X;
 use kvarn::prelude::*;
 use kvarn::limiting::{Action as LimitAction, Manager as LimitManager};
@@ -89,6 +91,130 @@ pub fn register(x: &X) -> X {
     X::L(vec![X::N(96), X::N(1)])
 }
 
+/// (L (N kind) (N v)) -> (reset_seconds, Some(ms) if finite)
+fn reset_of(x: &X) -> Option<(f64, Option<u128>)> {
+    let r = x.as_l()?;
+    if r.len() != 2 {
+        return None;
+    }
+    let v = r[1].as_n()?;
+    Some(match r[0].as_n()? {
+        0 => (v as f64 / 1000.0, Some(v)),
+        1 => (f64::INFINITY, None),
+        2 => (f64::NAN, None),
+        3 => (-(v as f64) / 1000.0 - 0.001, Some(0)),
+        _ => return None,
+    })
+}
+
+enum Op {
+    Reg(IpAddr, u64),
+    SetMax(usize),
+    SetEvery(usize),
+    SetReset(f64),
+    Disable,
+}
+
+fn is_sensitive(finite: Option<u128>) -> bool {
+    matches!(finite, Some(v) if v > 0 && v < FAR_MS)
+}
+
+/// input: (L checked ctor (L op ...)); output: (L (N code) ...) — one per register call.
+/// ctor (L (N 0) cfg) = LimitManager::new, (L (N 1)) = LimitManager::default(), (L (N 2)) = the
+/// `limiter` field of a new Host.  The setters are called on the live manager between the calls.
+pub fn ops(x: &X) -> X {
+    let l = match x.as_l() { Some(l) if l.len() == 3 => l, _ => return X::bad() };
+    if l[0].as_bool().is_none() {
+        return X::bad();
+    }
+    let ctor = match l[1].as_l() { Some(c) => c, None => return X::bad() };
+    let mut sensitive;
+    let kind = match ctor.first().and_then(|k| k.as_n()) { Some(k) => k, None => return X::bad() };
+    let new_cfg = match (kind, ctor.len()) {
+        (0, 2) => match config(&ctor[1]) {
+            Some((max, ce, reset, finite)) => {
+                sensitive = is_sensitive(finite);
+                Some((max, ce, reset))
+            }
+            None => return X::bad(),
+        },
+        (1, 1) | (2, 1) => {
+            sensitive = true; // Default: 10 s
+            None
+        }
+        _ => return X::bad(),
+    };
+    let mut script = Vec::new();
+    for e in match l[2].as_l() { Some(e) => e, None => return X::bad() } {
+        let o = match e.as_l() {
+            Some([X::N(0), X::N(a), X::N(dt)]) => Op::Reg(ip(*a), *dt as u64),
+            Some([X::N(1), X::N(m)]) => match usize::try_from(*m) { Ok(m) => Op::SetMax(m), Err(_) => return X::bad() },
+            Some([X::N(2), X::N(k)]) => match usize::try_from(*k) { Ok(k) => Op::SetEvery(k), Err(_) => return X::bad() },
+            Some([X::N(3), r]) => match reset_of(r) {
+                Some((secs, finite)) => {
+                    sensitive |= is_sensitive(finite);
+                    Op::SetReset(secs)
+                }
+                None => return X::bad(),
+            },
+            Some([X::N(4)]) => Op::Disable,
+            _ => return X::bad(),
+        };
+        script.push(o);
+    }
+    for _attempt in 0..3 {
+        let started = Instant::now();
+        let mut host;
+        let mut owned;
+        let manager: &mut LimitManager = match (kind, new_cfg) {
+            (0, Some((max, ce, reset))) => {
+                owned = LimitManager::new(max, ce, reset);
+                &mut owned
+            }
+            (1, _) => {
+                owned = LimitManager::default();
+                &mut owned
+            }
+            _ => {
+                host = Host::unsecure("localhost", "/nonexistent/kvh-c12", Extensions::empty(), host::Options::default());
+                &mut host.limiter
+            }
+        };
+        let mut nominal = Duration::ZERO;
+        let mut out = Vec::new();
+        for o in &script {
+            match o {
+                Op::Reg(addr, dt) => {
+                    if *dt > 0 {
+                        std::thread::sleep(Duration::from_millis(*dt));
+                        nominal += Duration::from_millis(*dt);
+                    }
+                    let m: &LimitManager = manager;
+                    let r = std::panic::catch_unwind(std::panic::AssertUnwindSafe(|| m.register(*addr)));
+                    out.push(X::N(match r { Ok(a) => code(a), Err(_) => 9 }));
+                }
+                Op::SetMax(m) => {
+                    manager.set_max_requests(*m);
+                }
+                Op::SetEvery(k) => {
+                    manager.set_check_every(*k);
+                }
+                Op::SetReset(r) => {
+                    manager.set_reset_seconds(*r);
+                }
+                Op::Disable => {
+                    manager.disable();
+                }
+            }
+        }
+        let drift = started.elapsed().saturating_sub(nominal);
+        if !sensitive || drift < TOLERANCE {
+            return X::L(out);
+        }
+    }
+    X::L(vec![X::N(96), X::N(1)])
+}
+
 // ------------------------------------------------------------------------------------------
 // real server
 // ------------------------------------------------------------------------------------------
@@ -174,8 +300,28 @@ async fn exchange(stream: &mut tokio::net::TcpStream) -> Answer {
     }
 }
 
-/// One attempt; `None` = the harness could not run the case (port trouble, stall).
-async fn serve_once(max: usize, ce: usize, reset: f64, conns: &[(u8, u64, u64)]) -> Option<X> {
+/// How the limiters of the server are set up.
+struct SConf {
+    path: u128,
+    host: (usize, usize, f64),
+    /// None: the clone taken by `insert`; Some((shared, cfg)): `set_pre_host_limiter`
+    pre: Option<(bool, (usize, usize, f64))>,
+    /// 0: IPv4 only, 1: both listeners (default), 2: IPv6 only (IPv4 peers arrive v4-mapped at the [::] listener)
+    bind: u128,
+    /// finite reset times in (0, FAR_MS) are crossed in real time
+    sensitive: bool,
+}
+
+fn apply_setters(m: &mut LimitManager, c: (usize, usize, f64)) {
+    m.set_max_requests(c.0).set_check_every(c.1).set_reset_seconds(c.2);
+}
+
+/// Real time may be behind the nominal schedule by at most this much in a server run whose
+/// reset time is crossed (the generators keep every nominal window age 1.5 s away from it).
+const SERVER_LATE: Duration = Duration::from_millis(1400);
+
+/// One attempt; `None` = the harness could not run the case (port trouble, stall, too late).
+async fn serve_once(sc: &SConf, conns: &[(u8, u64, u64, u64)]) -> Option<X> {
     let mut port = next_port();
     let mut tries = 0;
     while !port_is_free(port).await {
@@ -185,79 +331,116 @@ async fn serve_once(max: usize, ce: usize, reset: f64, conns: &[(u8, u64, u64)])
             return None;
         }
     }
-    let mut host = Host::unsecure("localhost", "/nonexistent/kvh-c12", Extensions::empty(), host::Options::default());
+    let started = Instant::now();
+    let mut ext = Extensions::empty();
+    ext.add_prepare_single("/", kvarn::prepare!(_, _, _, _, { FatResponse::no_cache(Response::new(Bytes::from_static(b"ok"))) }));
+    let mut host = Host::unsecure("localhost", "/nonexistent/kvh-c12", ext, host::Options::default());
     host.disable_fs_cache().disable_response_cache();
-    // the pre-host limiter of the collection is a clone of the first host's limiter (shared counters)
-    host.limiter = LimitManager::new(max, ce, reset);
-    let data = HostCollection::builder().insert(host).build();
-    let shutdown = RunConfig::new().bind(PortDescriptor::unsecure(port, data).ipv4_only()).disable_ctl().execute().await;
+    match sc.path {
+        0 => host.limiter = LimitManager::new(sc.host.0, sc.host.1, sc.host.2),
+        // the normal way: the Host comes with LimitManager::default(), the setters tune it
+        _ => apply_setters(&mut host.limiter, sc.host),
+    }
+    // without set_pre_host_limiter the pre-host limiter is a clone of the first host's limiter (shared counters)
+    let pre = match sc.pre {
+        None => None,
+        Some((false, c)) => Some(LimitManager::new(c.0, c.1, c.2)),
+        Some((true, c)) => {
+            let mut m = host.limiter.clone();
+            apply_setters(&mut m, c);
+            Some(m)
+        }
+    };
+    let mut builder = HostCollection::builder().insert(host);
+    if let Some(pre) = pre {
+        builder = builder.set_pre_host_limiter(pre);
+    }
+    let data = builder.build();
+    let mut descriptor = PortDescriptor::unsecure(port, data);
+    descriptor = match sc.bind {
+        0 => descriptor.ipv4_only(),
+        2 => descriptor.ipv6_only(),
+        _ => descriptor,
+    };
+    let shutdown = RunConfig::new().bind(descriptor).disable_ctl().execute().await;
 
     let mut results = Vec::new();
     let mut first = true;
     let mut failed = false;
-    for (a, dt, nreq) in conns {
-        if *dt > 0 {
-            tokio::time::sleep(Duration::from_millis(*dt)).await;
+    let mut nominal = Duration::ZERO;
+    'conns: for (a, dt, nreq, times) in conns {
+        nominal += Duration::from_millis(*dt);
+        // absolute schedule: never early; lateness is checked
+        let due = started + nominal;
+        if let Some(wait) = due.checked_duration_since(Instant::now()) {
+            tokio::time::sleep(wait).await;
         }
         let local = Ipv4Addr::new(127, 0, 0, 1 + *a);
-        // the listener binds inside its task: before the first accepted connection a refusal means "not yet"
-        let mut stream = None;
-        let t0 = Instant::now();
-        loop {
-            match connect_from(local, port).await {
-                Ok(s) => {
-                    stream = Some(s);
-                    break;
-                }
-                Err(e) if first && e.kind() == std::io::ErrorKind::ConnectionRefused && t0.elapsed() < Duration::from_secs(3) => {
-                    tokio::time::sleep(Duration::from_millis(10)).await;
-                }
-                Err(e) if e.kind() == std::io::ErrorKind::ConnectionRefused => break,
-                Err(_) => {
-                    failed = true;
-                    break;
+        for k in 0..*times {
+            if sc.sensitive && started.elapsed().saturating_sub(nominal) > SERVER_LATE {
+                failed = true;
+                break 'conns;
+            }
+            // the listener binds inside its task: before the first accepted connection a refusal means "not yet"
+            let mut stream = None;
+            let t0 = Instant::now();
+            loop {
+                match connect_from(local, port).await {
+                    Ok(s) => {
+                        stream = Some(s);
+                        break;
+                    }
+                    Err(e) if first && e.kind() == std::io::ErrorKind::ConnectionRefused && t0.elapsed() < Duration::from_secs(3) => {
+                        tokio::time::sleep(Duration::from_millis(10)).await;
+                    }
+                    Err(e) if e.kind() == std::io::ErrorKind::ConnectionRefused => break,
+                    Err(_) => {
+                        failed = true;
+                        break;
+                    }
                 }
             }
-        }
-        if failed {
-            break;
-        }
-        let mut stream = match stream {
-            Some(s) => s,
-            None => {
-                if first {
-                    failed = true; // the server never came up (bind failed): harness trouble, not a verdict
-                    break;
-                }
-                results.push(X::L(vec![X::N(3)]));
-                continue;
+            if failed {
+                break 'conns;
             }
-        };
-        first = false;
-        let mut statuses = Vec::new();
-        let mut cut = false;
-        for _ in 0..*nreq {
-            match exchange(&mut stream).await {
-                Answer::Status(s) => statuses.push(X::n(s)),
-                Answer::Cut => {
-                    cut = true;
-                    break;
+            let mut stream = match stream {
+                Some(s) => s,
+                None => {
+                    if first {
+                        failed = true; // the server never came up (bind failed): harness trouble, not a verdict
+                        break 'conns;
+                    }
+                    results.push(X::L(vec![X::N(3)]));
+                    continue;
                 }
-                Answer::Stalled => {
-                    failed = true;
-                    break;
+            };
+            first = false;
+            let mut statuses = Vec::new();
+            let mut cut = false;
+            for _ in 0..*nreq {
+                match exchange(&mut stream).await {
+                    Answer::Status(s) => statuses.push(X::n(s)),
+                    Answer::Cut => {
+                        cut = true;
+                        break;
+                    }
+                    Answer::Stalled => {
+                        failed = true;
+                        break;
+                    }
                 }
             }
+            drop(stream);
+            if failed {
+                break 'conns;
+            }
+            if cut && k + 1 == *times {
+                // let a listener that is about to close finish closing, so that "refused" is stable
+                // (inside a flood of identical connections only after the last one)
+                tokio::time::sleep(Duration::from_millis(40)).await;
+            }
+            results.push(X::L(vec![X::N(0), X::L(statuses), X::bool(cut)]));
         }
-        drop(stream);
-        if failed {
-            break;
-        }
-        if cut {
-            // let a listener that is about to close finish closing, so that "refused" is stable
-            tokio::time::sleep(Duration::from_millis(40)).await;
-        }
-        results.push(X::L(vec![X::N(0), X::L(statuses), X::bool(cut)]));
     }
     // is anybody still accepting?  (made after everything that is compared)
     let alive = if failed { false } else { connect_from(Ipv4Addr::new(127, 0, 0, 200), port).await.is_ok() };
@@ -269,28 +452,43 @@ async fn serve_once(max: usize, ce: usize, reset: f64, conns: &[(u8, u64, u64)])
     Some(X::L(vec![X::L(results), X::bool(alive)]))
 }
 
-/// input: (L checked cfg (L (L (N addr_index) (N wait_ms) (N nreq)) ...))
+/// input: (L checked (L (N path) cfg pre (N bind)) (L (L (N addr_index) (N wait_ms) (N nreq) [(N times)]) ...))
 /// output: (L (L result ...) alive), result = (L (N 3)) refused | (L (N 0) (L status ...) cut)
 pub fn server(x: &X) -> X {
     let l = match x.as_l() { Some(l) if l.len() == 3 => l, _ => return X::bad() };
     if l[0].as_bool().is_none() {
         return X::bad();
     }
-    let (max, ce, reset, finite) = match config(&l[1]) { Some(c) => c, None => return X::bad() };
+    let s = match l[1].as_l() { Some(s) if s.len() == 4 => s, _ => return X::bad() };
+    let path = match s[0].as_n() { Some(p) if p <= 1 => p, _ => return X::bad() };
+    let (max, ce, reset, finite) = match config(&s[1]) { Some(c) => c, None => return X::bad() };
+    let mut sensitive = is_sensitive(finite);
+    let pre = match s[2].as_l() {
+        Some([]) => None,
+        Some([X::N(k), c]) if *k <= 1 => match config(c) {
+            Some((m, e, r, f)) => {
+                sensitive |= is_sensitive(f);
+                Some((*k == 1, (m, e, r)))
+            }
+            None => return X::bad(),
+        },
+        _ => return X::bad(),
+    };
+    let bind = match s[3].as_n() { Some(b) if b <= 2 => b, _ => return X::bad() };
+    let sc = SConf { path, host: (max, ce, reset), pre, bind, sensitive };
     let mut conns = Vec::new();
     for e in match l[2].as_l() { Some(e) => e, None => return X::bad() } {
         match e.as_l() {
             // a connection without a request cannot tell "dropped" from "waiting": not expressible
-            Some([X::N(a), X::N(dt), X::N(n)]) if *a < 100 && *n >= 1 && *n < 1000 => conns.push((*a as u8, *dt as u64, *n as u64)),
+            Some([X::N(a), X::N(dt), X::N(n)]) if *a < 100 && *n >= 1 && *n < 1000 => conns.push((*a as u8, *dt as u64, *n as u64, 1)),
+            Some([X::N(a), X::N(dt), X::N(n), X::N(k)]) if *a < 100 && *n >= 1 && *n < 1000 && *k < 5000 => {
+                conns.push((*a as u8, *dt as u64, *n as u64, *k as u64))
+            }
             _ => return X::L(vec![X::N(96)]),
         }
     }
-    // the server's clock cannot be scheduled: only reset times that are never / always reached
-    if matches!(finite, Some(v) if v > 0 && v < FAR_MS) {
-        return X::L(vec![X::N(96)]);
-    }
     for _attempt in 0..3 {
-        if let Some(r) = runtime().block_on(serve_once(max, ce, reset, &conns)) {
+        if let Some(r) = runtime().block_on(serve_once(&sc, &conns)) {
             return r;
         }
     }
@@ -300,6 +498,7 @@ pub fn server(x: &X) -> X {
 pub fn dispatch(comp: &str, x: &X) -> Option<X> {
     Some(match comp {
         "limiter.register" => register(x),
+        "limiter.ops" => ops(x),
         "limiter.server" => server(x),
         _ => return None,
     })
